@@ -6,3 +6,8 @@ import Ark.Props.C18
 #print axioms Ark.Props.C18.register_full
 #print axioms Ark.Props.C18.register_locked
 #print axioms Ark.Props.C18.resources_map
+#print axioms Ark.Props.C18.words_mask256_get
+#print axioms Ark.Props.C18.words_mask256_get_inRange
+#print axioms Ark.Props.C18.words_mask256_totalBitsSet
+#print axioms Ark.Props.C18.words_mask64_get
+#print axioms Ark.Props.C18.words_mask64_totalBitsSet
